@@ -76,7 +76,12 @@
    Items are tokens [Tok owner k] = the k-th item allocated by thread [owner]
    (by a PutFresh of a newly allocated item, or by the New hook running inside
    that thread's Get), or the zero value of T. The user's New hook, when set,
-   allocates a new item on every call. *)
+   allocates a new item on every call.
+   Shared state and data races: the step function [pstep_thread_acc] returns,
+   with the next configuration, the accesses the step makes to the shared
+   state (plain read / write of the field New or of the inner pool's own New
+   field, or a call into sync.Pool, which the runtime synchronises: trusted);
+   [pstep_thread] is its first component. *)
 From Typ Require Export Lib.Base.
 
 Definition tid := nat.
@@ -369,54 +374,75 @@ Fixpoint set_pthread (ths : list pthread) (t : tid) (th : pthread) : list pthrea
   | x :: r, S t' => x :: set_pthread r t' th
   end.
 
-Definition pstep_thread (c : pconfig) (t : tid) (ch : pchoice) : option pconfig :=
+(* The shared state of a Pool is the plain field [New] ([p_new]), the inner
+   sync.Pool ([p_bag]) and, inside the latter, its own plain field New (never
+   set). Every step REPORTS, next to the new configuration, the accesses it
+   makes to that shared state (ghost output, produced by the same branch that
+   performs the effect): a plain (unsynchronised) read or write of a field, or
+   a call into sync.Pool, which is synchronised inside the runtime (trusted).
+   Everything else a step touches (program, pc, held items, counters) is local
+   to the stepping goroutine; the trace is ghost. AtomicPoolProofs.v proves
+   that the report is faithful (a step that does not report an access to a
+   location neither depends on it nor changes it) and that no step of any
+   run reports a plain write. *)
+Inductive pfield := FNew | FPoolNew.          (* Pool.New and the inner sync.Pool.New *)
+Inductive paccess :=
+| PlainRead (f : pfield)
+| PlainWrite (f : pfield)
+| PoolInternal.                               (* a call of p.pool.Get / p.pool.Put *)
+
+Definition pstep_thread_acc (c : pconfig) (t : tid) (ch : pchoice) : option (pconfig * list paccess) :=
   match nth_error (p_threads c) t with
   | None => None
   | Some th =>
-    let put bag th' e := Some (PConfig (p_new c) bag (set_pthread (p_threads c) t th') (e :: p_trace c)) in
+    let put bag th' e accs := Some (PConfig (p_new c) bag (set_pthread (p_threads c) t th') (e :: p_trace c), accs) in
     match p_pc th with
     | GIdle =>
+        (* invocation: arguments and receiver only, no shared access *)
         match p_prog th with
         | [] => None
-        | PGet :: rest => put (p_bag c) (PThread rest GCheckNew (p_held th) (p_fresh th) (p_got th)) (PEInvGet t)
+        | PGet :: rest => put (p_bag c) (PThread rest GCheckNew (p_held th) (p_fresh th) (p_got th)) (PEInvGet t) []
         | PPutHeld k :: rest =>
             match nth_error (p_held th) k with
-            | Some v => put (p_bag c) (PThread rest (PutCall v) (remove_nth k (p_held th)) (p_fresh th) (p_got th)) (PEInvPut t v)
+            | Some v => put (p_bag c) (PThread rest (PutCall v) (remove_nth k (p_held th)) (p_fresh th) (p_got th)) (PEInvPut t v) []
             | None => Some (PConfig (p_new c) (p_bag c) (set_pthread (p_threads c) t
-                              (PThread rest GIdle (p_held th) (p_fresh th) (p_got th))) (p_trace c))
+                              (PThread rest GIdle (p_held th) (p_fresh th) (p_got th))) (p_trace c), [])
             end
         | PPutFresh :: rest =>
             let v := Tok t (p_fresh th) in
-            put (p_bag c) (PThread rest (PutCall v) (p_held th) (S (p_fresh th)) (p_got th)) (PEInvPut t v)
-        | PPutZero :: rest => put (p_bag c) (PThread rest (PutCall Zero) (p_held th) (p_fresh th) (p_got th)) (PEInvPut t Zero)
+            put (p_bag c) (PThread rest (PutCall v) (p_held th) (S (p_fresh th)) (p_got th)) (PEInvPut t v) []
+        | PPutZero :: rest => put (p_bag c) (PThread rest (PutCall Zero) (p_held th) (p_fresh th) (p_got th)) (PEInvPut t Zero) []
         end
     | GCheckNew =>
-        (* if p.New == nil { var x T; return x } *)
+        (* if p.New == nil { var x T; return x }        plain read of New *)
         if p_new c then Some (PConfig (p_new c) (p_bag c) (set_pthread (p_threads c) t
-                               (PThread (p_prog th) GPool (p_held th) (p_fresh th) (p_got th))) (p_trace c))
+                               (PThread (p_prog th) GPool (p_held th) (p_fresh th) (p_got th))) (p_trace c), [PlainRead FNew])
         else Some (PConfig (p_new c) (p_bag c) (set_pthread (p_threads c) t
-                               (PThread (p_prog th) (GRet Zero SrcZeroNoNew) (p_held th) (p_fresh th) (p_got th))) (p_trace c))
+                               (PThread (p_prog th) (GRet Zero SrcZeroNoNew) (p_held th) (p_fresh th) (p_got th))) (p_trace c), [PlainRead FNew])
     | GPool =>
-        (* x := p.pool.Get() *)
+        (* x := p.pool.Get()       sync.Pool.Get; on a miss it reads its own (nil) New field *)
         match ch with
         | Take i =>
             match nth_error (p_bag c) i with
-            | Some v => put (remove_nth i (p_bag c)) (PThread (p_prog th) (GRet v SrcBag) (p_held th) (p_fresh th) (p_got th)) (PETake t v)
+            | Some v => put (remove_nth i (p_bag c)) (PThread (p_prog th) (GRet v SrcBag) (p_held th) (p_fresh th) (p_got th)) (PETake t v) [PoolInternal]
             | None => None
             end
-        | Miss => put (p_bag c) (PThread (p_prog th) GNew (p_held th) (p_fresh th) (p_got th)) (PEMiss t)
+        | Miss => put (p_bag c) (PThread (p_prog th) GNew (p_held th) (p_fresh th) (p_got th)) (PEMiss t) [PoolInternal; PlainRead FPoolNew]
         end
     | GNew =>
-        (* return p.New() *)
+        (* return p.New()          plain read of New, then the call of the hook *)
         let v := Tok t (p_fresh th) in
-        put (p_bag c) (PThread (p_prog th) (GRet v SrcNew) (p_held th) (S (p_fresh th)) (p_got th)) (PENew t v)
+        put (p_bag c) (PThread (p_prog th) (GRet v SrcNew) (p_held th) (S (p_fresh th)) (p_got th)) (PENew t v) [PlainRead FNew]
     | GRet v src =>
-        put (p_bag c) (PThread (p_prog th) GIdle (p_held th ++ [v]) (p_fresh th) (p_got th ++ [v])) (PERetGet t v src)
+        put (p_bag c) (PThread (p_prog th) GIdle (p_held th ++ [v]) (p_fresh th) (p_got th ++ [v])) (PERetGet t v src) []
     | PutCall v =>
         (* p.pool.Put(x) *)
-        put (v :: p_bag c) (PThread (p_prog th) GIdle (p_held th) (p_fresh th) (p_got th)) (PEPut t v)
+        put (v :: p_bag c) (PThread (p_prog th) GIdle (p_held th) (p_fresh th) (p_got th)) (PEPut t v) [PoolInternal]
     end
   end.
+
+Definition pstep_thread (c : pconfig) (t : tid) (ch : pchoice) : option pconfig :=
+  match pstep_thread_acc c t ch with Some (c', _) => Some c' | None => None end.
 
 Definition pstep (c : pconfig) (a : sitem) : option pconfig :=
   match a with
@@ -443,18 +469,27 @@ Definition inflight (p : ppc) : list val :=
 Definition thread_vals (th : pthread) : list val := p_held th ++ inflight (p_pc th).
 Definition all_vals (c : pconfig) : list val := p_bag c ++ flat_map thread_vals (p_threads c).
 
-(* the shared plain (non-atomic) fields and the access a thread's next step makes to them *)
-Inductive pfield := FNew | FPoolNew.          (* Pool.New and the inner sync.Pool.New *)
-Inductive paccess := PlainRead (f : pfield) | PlainWrite (f : pfield).
-Definition pool_next_access (c : pconfig) (t : tid) : option paccess :=
-  match nth_error (p_threads c) t with
-  | None => None
-  | Some th => match p_pc th with
-               | GCheckNew => Some (PlainRead FNew)     (* if p.New == nil *)
-               | GNew => Some (PlainRead FNew)          (* p.New() *)
-               | _ => None
-               end
+(* the accesses of a whole run, oldest first, each with the goroutine that made it
+   (the runtime's drop step [SGc] happens inside sync.Pool) *)
+Fixpoint pool_accesses (c : pconfig) (s : list sitem) : list (tid * paccess) :=
+  match s with
+  | [] => []
+  | SThr t ch :: s' =>
+      match pstep_thread_acc c t ch with
+      | Some (c', accs) => map (pair t) accs ++ pool_accesses c' s'
+      | None => pool_accesses c s'
+      end
+  | SGc i :: s' => pool_accesses (match pstep c (SGc i) with Some c' => c' | None => c end) s'
   end.
+
+(* two accesses conflict when they touch the same plain field and one of them writes it *)
+Definition conflicting (a1 a2 : paccess) : Prop :=
+  exists f, (a1 = PlainWrite f /\ (a2 = PlainRead f \/ a2 = PlainWrite f)) \/
+            (a2 = PlainWrite f /\ a1 = PlainRead f).
+
+(* the same configuration with another value of a shared location *)
+Definition with_new (b : bool) (c : pconfig) : pconfig := PConfig b (p_bag c) (p_threads c) (p_trace c).
+Definition with_bag (bag : list val) (c : pconfig) : pconfig := PConfig (p_new c) bag (p_threads c) (p_trace c).
 
 (* counting events about a value *)
 Definition pcount (f : pevent -> bool) (tr : list pevent) : nat := length (filter f tr).
